@@ -103,6 +103,33 @@ def check(ctx, rep, nsets, only=None):
                 rep.violation("bound_set_untouched", SITE + ".__init__", f"constructing the transformer changed the caller's bound arrays: lb={lb} ub={ub} plb={plb} pub={pub} -> "
                               f"{[a.ravel().tolist() for a in arrs]}", case)
                 continue
+            if si % 3 == 0:
+                # the helper through which BADS maps given points (x0) into internal coordinates: the image of a point must not depend on
+                # the dtype it is spelled in (integer-typed points) nor on how many points are mapped at once
+                from pybads.search.grid_functions import grid_units
+                rows = []
+                for j in range(3):
+                    row = []
+                    for l, u, p_, q_ in zip(lb, ub, plb, pub):
+                        lo_i, hi_i = math.ceil(max(l, -1e6)), math.floor(min(u, 1e6))
+                        if lo_i > hi_i:
+                            row = None
+                            break
+                        c_i = min(max(int(round(p_ + (q_ - p_) * (0.2 + 0.3 * j))), lo_i), hi_i)
+                        row.append(c_i)
+                    if row is not None:
+                        rows.append(row)
+                if rows:
+                    stats["grid_units_sets"] = stats.get("grid_units_sets", 0) + 1
+                    Xi = np.array(rows, dtype=np.int64)
+                    ref = np.vstack([np.atleast_2d(vt(np.array([r], dtype=float))) for r in rows])
+                    for name, got in (("an (N, D) integer array", grid_units(Xi.copy(), vt)), ("a (1, D) integer array", grid_units(Xi[:1].copy(), vt)),
+                                      ("an (N, D) float array", grid_units(Xi.astype(float), vt))):
+                        want = ref[: len(np.atleast_2d(got))]
+                        if not np.array_equal(np.atleast_2d(np.asarray(got, dtype=float)), want, equal_nan=True):
+                            rep.violation("point_dtype_irrelevant", "grid_functions.py:grid_units", f"points {rows[:len(want)]} given as {name} map to {np.asarray(got).tolist()} "
+                                          f"instead of {want.tolist()} (bounds lb={lb} ub={ub} plb={plb} pub={pub})", case)
+                            break
             if si % 5 == 0:
                 vt2 = VariableTransformer(D, arrs[0], arrs[1], arrs[2], arrs[3], flag)
                 if not (np.array_equal(vt2.lb, vt.lb) and np.array_equal(vt2.ub, vt.ub) and np.array_equal(vt2.apply_log_t, vt.apply_log_t)):
